@@ -150,6 +150,18 @@ class SymDT(datetime):
     def utcoffset(self):
         return None
 
+    def astimezone(self, tz=None):
+        """naive value read as process-local wall clock (CPython semantics), re-expressed in `tz`; the aware result is
+        represented by its wall-clock seconds in `tz` (callers strip tzinfo again)"""
+        zone = TZ_OFF[0]
+        if tz is None:
+            return self
+        off = tz.utcoffset(None)
+        if off is None:
+            raise Unsupported("astimezone(tz with date-dependent offset)")
+        epoch = self.t if zone is None else zone.to_epoch(self.t)
+        return SymDT(epoch + int(off.total_seconds()))
+
     def timestamp(self):
         zone = TZ_OFF[0]
         return SymNum(self.t if zone is None else zone.to_epoch(self.t))
@@ -328,7 +340,14 @@ class DTShim(metaclass=_DTMeta):
             return SymDT(t if zone is None else zone.to_wall(t))
         return datetime.fromtimestamp(x, tz) if tz is not None else datetime.fromtimestamp(x)
 
-    fromisoformat = datetime.fromisoformat
+    @staticmethod
+    def fromisoformat(s):
+        d = datetime.fromisoformat(s)
+        if TZ_OFF[0] is not None and d.tzinfo is None:
+            # under a zone model a parsed naive wall-clock value must flow through the model like any other
+            return SymDT(z3.IntVal(secs(d)))
+        return d
+
     min = datetime.min
     max = datetime.max
 
